@@ -212,7 +212,17 @@ Definition phase_fraction (pf : vec -> vec -> Q -> Q -> Q) (feed : vec) (ids : l
     end
   else (Ok 1, 0%nat).
 
-(* ---------- equilibrium/binary_phase_fraction.py, the closed-form part ---------- *)
+(* ---------- equilibrium/binary_phase_fraction.py ---------- *)
+(* phase_fraction_objective_function(phi, -zs*(Ks-1), Ks-1, za, zb): the Rachford-Rice residual whose root
+   solve_phase_fraction_Rashford_Rice looks for *)
+Definition rr_objective (phi : Q) (zs Ks : vec) (za zb : Q) : Q :=
+  let K_minus_1 := map (fun k => k - 1) Ks in
+  let negative_zs_K_minus_1 := map2 (fun z km => - z * km) zs K_minus_1 in
+  let denominator := map (fun km => 1 + phi * km) K_minus_1 in
+  let a := if qltb 0 za then za / phi else 0 in
+  let b := if qltb 0 zb then zb / (1 - phi) else 0 in
+  qsum (map2 Qdiv negative_zs_K_minus_1 denominator) - a + b.
+
 Definition as_valid_fraction (x : Q) : Q := if qltb x 0 then 0 else if qltb 1 x then 1 else x.
 
 Definition compute_phase_fraction_2N (z1 z2 K1 K2 : Q) : Q :=
